@@ -1,9 +1,89 @@
 import Driver.Codec
-/-! Protocol ops of the `Runner` cluster: decode, call the model, print. -/
+import Driver.OpsExample
+import XdocModel.Runner
+import XdocModel.Plugin
+/-!
+Protocol ops of the `Runner` cluster (C10, C15): decode, call the model, print.
+
+* `is_disabled <pytest 0|1> <docsrc>` → `0|1`
+* `ci_table <code point of a pattern character>` → ranges of the characters it matches
+* `runner <command> <entry>*` with entry = `<E|Z>/<callname>/<num>/<docsrc>/<result>`
+  (`E` collected doctest, `Z` zero-arg dummy; result = three bits passed,failed,skipped of the
+  summary, or `X` exception escapes `run`, or `I` KeyboardInterrupt); answer
+  `listed <names>` | `dumped <names>` | `aborted exit=1` |
+  `ran total= passed= failed= skipped= failedlist=<names> ran=<names> exit=`
+* `front_ends <docsrc> <defaults> <importOk 0|1> <sat> (<execLines> <want> <directives> <result>)*`
+  (the part encoding of the `run` op) → `pytest=<p|f|s> native=<p|f|s|abort> pdis=<0|1> ndis=<0|1>`
+  (pytest = what the item reports, native = what the native runner reports IF it runs the doctest)
+* `populate <N | options>` → `pytest=<assoc|raise> native=<assoc|raise>`
+* `pytest_exit <string of p f s>` → exit status
+-/
 namespace Xdoc.Driver
-open Xdoc
+open Xdoc Py
+
+def decRunResult (f : String) : RunResult :=
+  if f == "X" then .escaped else if f == "I" then .interrupt else
+  match decBits f with
+  | [p, fl, s] => .summary { passed := p, failed := fl, skipped := s }
+  | _ => .escaped
+
+/-- `(isZero, entry)` -/
+def decEntry (f : String) : Option (Bool × Entry) :=
+  match f.splitOn "/" with
+  | [kind, cn, num, src, res] =>
+    some (kind == "Z", { doc := { callname := decStr cn, num := num.toNat!, docsrc := decStr src },
+                         result := decRunResult res })
+  | _ => none
+
+def encNames (es : List Entry) : String := encStrList (es.map (·.doc.uniqueCallname))
+
+def verdictLetter : Verdict → String
+  | .passed => "p" | .failed => "f" | .skipped => "s"
+
+def decVerdicts (f : String) : List Verdict :=
+  f.toList.filterMap fun c =>
+    if c == 'p' then some .passed else if c == 'f' then some .failed else if c == 's' then some .skipped else none
+
+def encDefaults : Option (List (String × Bool)) → String
+  | none => "raise"
+  | some l => encBoolAssoc l
 
 def opsRunner : List String → Option String
+  | ["is_disabled", py, src] => some (encBool (isDisabled (py == "1") (decStr src)))
+  | ["ci_table", k] => some (tableOf (kwCharMatch (Char.ofNat k.toNat!)))
+  | "runner" :: cmd :: entries =>
+    let es := entries.filterMap decEntry
+    let examples := (es.filter (!·.1)).map (·.2)
+    let zero := (es.filter (·.1)).map (·.2)
+    let r := doctestModule (decStr cmd) examples zero
+    some (match r with
+      | .listed names => "listed " ++ encStrList names
+      | .dumped en => "dumped " ++ encNames en
+      | .aborted => s!"aborted exit={exitCode r}"
+      | .ran rs =>
+        s!"ran total={rs.nTotal} passed={rs.nPassed} failed={rs.nFailed} skipped={rs.nSkipped} " ++
+        s!"failedlist={encNames rs.failed} ran={encNames rs.ran} exit={exitCode r}")
+  | "front_ends" :: src :: defaults :: imp :: sat :: rest =>
+    let parts := decParts rest
+    let results := parts.map (·.2)
+    let sem : Bool → Nat → RunPart → ExecResult × Bool := fun ok i _ =>
+      match results[i]? with
+      | some (some r) => (r, ok)
+      | _ => (.ok [] .notEvaled, false)
+    let d := decBoolAssoc defaults
+    let src := decStr src
+    let oP := run (decSat sat) sem (pytestCfg d (imp == "1")) true (parts.map (·.1))
+    let oN := run (decSat sat) sem (nativeCfg d (imp == "1")) true (parts.map (·.1))
+    if !oP.state.env || !oN.state.env then some "no-oracle" else
+    let nat := match nativeVerdict oN with
+      | some v => verdictLetter v
+      | none => "abort"
+    some (s!"pytest={verdictLetter (pytestVerdict src oP)} native={nat} " ++
+          s!"pdis={encBool (isDisabled true src)} ndis={encBool (isDisabled false src)}")
+  | ["populate", o] =>
+    let opt : Option Str := if o == "N" then none else some (decStr o)
+    some s!"pytest={encDefaults (pytestDefaults opt)} native={encDefaults (nativeDefaults opt)}"
+  | ["pytest_exit", vs] => some (toString (pytestExit (decVerdicts vs)))
   | _ => none
 
 end Xdoc.Driver
